@@ -95,3 +95,50 @@ pub fn make_publish(
 pub fn publish_parts(p: &protocol::Publish) -> (bool, protocol::QoS, u16) {
     (p.dup, p.qos, p.pkid)
 }
+
+// ---------------------------------------------------------------- reproducible choices
+// With a seed installed, the three nondeterministic choices of the router (HashMap iteration
+// order in `DataLog::matches` / `read_retained_messages`, `thread_rng` in `Strategy::Random`)
+// are replaced by a seeded permutation / pick, so that a recorded history replays exactly.
+// Every order/pick produced this way is one the unhooked code could have produced.
+
+thread_local! {
+    static CHOICE_SEED: RefCell<Option<u64>> = RefCell::new(None);
+}
+
+pub fn set_choice_seed(seed: Option<u64>) {
+    CHOICE_SEED.with(|s| *s.borrow_mut() = seed);
+}
+
+fn next_choice() -> Option<u64> {
+    CHOICE_SEED.with(|s| {
+        let mut s = s.borrow_mut();
+        let state = s.as_mut()?;
+        *state = state.wrapping_add(0x9E3779B97F4A7C15);
+        let mut z = *state;
+        z = (z ^ (z >> 30)).wrapping_mul(0xBF58476D1CE4E5B9);
+        z = (z ^ (z >> 27)).wrapping_mul(0x94D049BB133111EB);
+        Some(z ^ (z >> 31))
+    })
+}
+
+/// Sort, then shuffle with the seeded generator. Identity when no seed is installed.
+pub(crate) fn fix_order<T: Ord>(mut v: Vec<T>) -> Vec<T> {
+    if CHOICE_SEED.with(|s| s.borrow().is_none()) {
+        return v;
+    }
+    v.sort();
+    for i in (1..v.len()).rev() {
+        let j = (next_choice().unwrap() % (i as u64 + 1)) as usize;
+        v.swap(i, j);
+    }
+    v
+}
+
+/// Seeded pick in `0..n`; `None` when no seed is installed (or `n == 0`).
+pub(crate) fn pick(n: usize) -> Option<usize> {
+    if n == 0 {
+        return None;
+    }
+    next_choice().map(|z| (z % n as u64) as usize)
+}
